@@ -85,7 +85,7 @@ def run(ctx):
     ctx.rng.shuffle(hists)
     # the same header strings through both block commands, in every order (on one manager)
     reuse = [[a, b] for a in lines.REUSE_CLASSES for b in lines.REUSE_CLASSES if a != b]
-    chosen = singles + reuse + hists[:ctx.pick(500, len(hists))]
+    chosen = singles + reuse + hists[:ctx.pick(500, 40000)]
     if not ctx.quick:
         for _ in range(20000):
             chosen.append([ctx.rng.choice(v5) for _ in range(3)])
